@@ -1033,6 +1033,14 @@ func dirTables(c *an.Ctx, r *runnerRoles, cc *ssa.Function, rule string) {
 					good = false
 					c.Bad(rule, an.Short(fn)+":write(contextDefinition.Dir)", st.Pos(), "%s writes the dir of a context definition (%s): a context without dir no longer defaults to the directory taskctl was started in", an.Short(fn), an.FieldProv(st.Val))
 				}
+				// … nor after it: the built context's dir is what its constructor was given (a store on a context the
+				// function did not allocate replaces the default buildContext has just applied)
+				if fa, ok := st.Addr.(*ssa.FieldAddr); ok && an.TypeField(fa) == "ExecutionContext.Dir" {
+					if fresh, _ := an.FreshBase(fa.X); !fresh {
+						good = false
+						c.Bad(rule, an.Short(fn)+":write(ExecutionContext.Dir)", st.Pos(), "%s overwrites the dir of a context that was already built (%s): the directory decided by buildContext — the declared one, else the directory taskctl was started in — is replaced", an.Short(fn), an.FieldProv(st.Val))
+					}
+				}
 			})
 		}
 		c.Check(good, rule, an.Short(bc)+":dir-default", bc.Pos(), "a context without dir defaults to the invocation directory", "buildContext does not default an empty dir to the invocation directory")
